@@ -470,3 +470,13 @@ ADDED7 = {
 }
 for _k, _v in ADDED7.items():
     PLAN[_k]["rule"] = PLAN[_k]["rule"] + "; " + _v
+
+# after the thirteenth round of seeded changes
+ADDED8 = {
+    "C07": "the point handed back by every prefix run (no row removed by the presolver) must lie in the user's cones K x K* to 1e-9 relative: un-scaling a strictly interior internal iterate cannot leave them",
+    "C13": "the slack-step offset W'(lambda \\ ds) obtained through the cone list equals, block by block, the offsets of fresh single-cone objects that see only their own slices",
+    "C14": "a fifth of the generalised power cones with a w block of two or more entries get a primal point whose w block mixes exact zeros with non-zeros",
+    "C15": "one case in twelve asks for alpha_max below min_terminate_step_length: the requested maximum itself is always tried, so a zero step is legitimate only if it fails too",
+}
+for _k, _v in ADDED8.items():
+    PLAN[_k]["rule"] = PLAN[_k]["rule"] + "; " + _v
